@@ -232,6 +232,13 @@ impl super::super::world::Hook for ForkWatch {
         if (self.sample_tick >> 33) % 3 != 0 || !w.matched_pending() {
             return;
         }
+        if let Some((main, _)) = self.switched {
+            // after a whole-network fork switch the reported numbers are only comparable with the new chain once the client's
+            // proven tip is on it
+            if w.chains[main].num_of(&w.c().stored_tip().1.calc_header_hash()).is_none() {
+                return;
+            }
+        }
         let rpc = w.c().rpc_filter();
         let snap = get_scripts(w).into_iter().map(|(s, st, n)| { let txs = super::super::refidx::rpc_txs(&rpc, &s, st, 50); (s, st, n, txs) }).collect();
         self.snapshots.push(snap);
